@@ -58,7 +58,14 @@ func HarnessC03Exchange(a []int) {
 	}()
 	msg := c04Msgs[0]
 	t0 := verifNow()
+	returned := false
+	go func() { // watchdog: Send must be back one resend interval after the response timeout at the latest
+		verifDaemon()
+		verifSleep(timeout + resend)
+		verifAssert("C03.send_returns", returned)
+	}()
 	err := conn.Send(msg)
+	returned = true
 	t1 := verifNow()
 	verifObserve("ok", err == nil)
 	verifObserve("frames", len(sock.log))
